@@ -1,5 +1,6 @@
 SPECIFICATION FairSpec
 CONSTANT NOpt = 1
+CONSTANT Reent = TRUE
 CONSTANT MaxReq = 5
 PROPERTY Terminates
 PROPERTY EveryRequestFires
